@@ -3,6 +3,9 @@
 One history process; a snapshot reference model (content digest + serialisation per
 live object) is checked after every step.  See DESIGN.md §4.3 (incl. the honest
 statement about how well this property fits the technique)."""
+import copy
+import json
+
 from . import gen as G
 from . import child, digest as D
 from .procs import fork_run
@@ -45,6 +48,34 @@ def matchable_template(rng, pool):
     return {"head": head, "items": items, "params": used, "array_params": [], "defs": used}
 
 
+def array_template(rng, pool):
+    """A template whose variables are whole-array parameters and arrays with parameter
+    cells, used through indexing (the array-valued-parameter corner of instantiation)."""
+    names = rng.sample(pool, min(len(pool), rng.randint(2, 3)))
+    items = []
+    aps = []
+    params = []
+    r, c = rng.randint(1, 2), rng.randint(1, 3)
+    items.append(["float array W[%d, %d] =" % (r, c), "    {%s}" % names[0], ""])
+    aps.append((names[0], r, c))
+    if rng.random() < 0.6:
+        row = ", ".join(rng.choice(["1.5", "{%s}" % names[1], "0.25"]) for _ in range(3))
+        if "{" not in row:
+            row = "{%s}, " % names[1] + row
+        items.append(["float array V =", "    " + row, ""])
+        params.append(names[1])
+    for _ in range(rng.randint(1, 3)):
+        items.append(["%s(W[%d], %s) | %d" % (rng.choice(G.GATES1), rng.randrange(r * c),
+                                              rng.choice(["0.5", "{%s}" % names[-1], "2*{%s}" % names[-1]]),
+                                              rng.randrange(3))])
+    if any("{%s}" % names[-1] in it[0] for it in items) and names[-1] not in params and names[-1] != names[0]:
+        params.append(names[-1])
+    if rng.random() < 0.5:
+        items.append(["Vac | 1"])
+    return {"head": ["name arrtmpl", "version 1.0"], "items": items, "params": params,
+            "array_params": aps, "defs": names}
+
+
 def gen_plan(rng):
     cfg = G.swarm(rng)
     feats = set(cfg["features"])
@@ -59,9 +90,15 @@ def gen_plan(rng):
     steps = []
     progs = []      # {"id", "params", "array_params", "template": maybe}
     npool = rng.randint(2, 5)
+    sc = None
     for j in range(npool):
-        if rng.random() < 0.3:
+        k = rng.random()
+        if sc is not None and k < 0.2:
+            pass            # the same script once more: an equal but distinct program
+        elif k < 0.4:
             sc = matchable_template(rng, cfg["pool"])
+        elif k < 0.55:
+            sc = array_template(rng, cfg["pool"])
         else:
             sc = G.ScriptGen(rng, cfg).build()
         oid = "o%d" % j
@@ -70,6 +107,21 @@ def gen_plan(rng):
                       "kind": "program"})
     nsteps = rng.choice([3, 5, 8, 12, 20, 30])
     objs = list(progs)
+    used_kwargs = []     # kwargs of earlier calls, re-used verbatim on equal templates
+    for p in list(progs):
+        if (p["params"] or p["array_params"]) and rng.random() < 0.3:
+            # an equal copy taken before anything has been done to the original
+            steps.append({"op": "deepcopy", "obj": p["id"], "out": "c" + p["id"]})
+            objs.append({"id": "c" + p["id"], "params": p["params"], "array_params": p["array_params"],
+                         "kind": "program", "derived": None})
+    # caller-owned arrays that are handed to several template calls by reference
+    arrays = []
+    if any(p["array_params"] for p in progs) and rng.random() < 0.7:
+        for j in range(rng.randint(1, 2)):
+            aid = "a%d" % j
+            steps.append({"op": "mkarray", "out": aid,
+                          "nd": [[rng.choice([1, 2, 0.5, 7, -1.5]) for _ in range(3)] for _ in range(3)]})
+            arrays.append(aid)
     counter = [0]
 
     def fresh(prefix):
@@ -85,6 +137,8 @@ def gen_plan(rng):
             if mode == "baddim":
                 kw[n] = [rng.choice([1, 2.5]) for _ in range(cc)]       # 1-D: refused
                 mode = "ok"
+            elif arrays and rng.random() < 0.6:
+                kw[n] = {"ref": rng.choice(arrays)}
             else:
                 kw[n] = [[rng.choice([1, 2, 0.5, 7]) for _ in range(cc)] for _ in range(rr)]
         if mode == "missing" and kw:
@@ -100,12 +154,17 @@ def gen_plan(rng):
             derived = [o for o in objs if o.get("derived")]
             tgt = rng.choice(derived) if derived and rng.random() < 0.75 else rng.choice(objs)
             kinds = {"program": PROG_MUTS, "graph": GRAPH_MUTS, "match": MATCH_MUTS}[tgt["kind"]]
+            if tgt.get("from_array") and rng.random() < 0.5:
+                kinds = ["var_array_write", "array_arg_write"]
             steps.append({"op": "mutate", "obj": tgt["id"],
                           "how": {"kind": rng.choice(kinds), "n": rng.randrange(5), "j": rng.randrange(3),
                                   "v": rng.choice([0.125, 3, 7.5, -2]), "m": rng.randrange(4)}})
             continue
         k = rng.random()
         p = rng.choice(programs)
+        templates = [o for o in programs if o["params"] or o["array_params"]]
+        if 0.18 <= k < 0.45 and templates and rng.random() < 0.85:
+            p = rng.choice(templates)
         if k < 0.18:
             steps.append({"op": "dumps", "obj": p["id"]})
         elif k < 0.45:
@@ -113,10 +172,19 @@ def gen_plan(rng):
             if rng.random() < cfg["fail_call_rate"]:
                 mode = rng.choice(["missing", "baddim"])
             oid = fresh("i")
-            steps.append({"op": "call", "obj": p["id"], "kwargs": values_for(p, mode), "out": oid,
+            sig = (sorted(p["params"]), sorted(map(tuple, p["array_params"])))
+            same = [kw for s2, kw in used_kwargs if s2 == sig]
+            if same and mode == "ok" and rng.random() < 0.45:
+                kw = copy.deepcopy(rng.choice(same))
+            else:
+                kw = values_for(p, mode)
+                if mode == "ok":
+                    used_kwargs.append((sig, kw))
+            steps.append({"op": "call", "obj": p["id"], "kwargs": kw, "out": oid,
                           "mode": mode})
-            objs.append({"id": oid, "params": [], "array_params": [], "kind": "program",
-                         "derived": p["id"]})
+            if mode == "ok":
+                objs.append({"id": oid, "params": [], "array_params": [], "kind": "program",
+                             "derived": p["id"], "from_array": bool(p["array_params"])})
         elif k < 0.62:
             oid = fresh("g")
             steps.append({"op": "digraph", "obj": p["id"], "out": oid})
@@ -153,6 +221,8 @@ def run(plan, ctx):
     viol = []
     model = {}          # oid -> [content sha, dumps sha]
     graphs_of = {}      # program oid -> set of graph oids derived from it
+    values_of = {}      # instance oid -> caller-owned arrays it was created from
+    call_memo = {}      # (content of callee, kwargs) -> (result digest, callee, step)
     feats = {}
     instances_of = {}
     succeeded_call = set()
@@ -176,6 +246,10 @@ def run(plan, ctx):
         if op == "mutate":
             allowed.add(st["obj"])
             allowed |= graphs_of.get(st["obj"], set())
+            # an instance may keep using the very array object its caller passed in: that
+            # the caller's array follows is not a statement about programs (the sibling
+            # instance and the template, however, must not follow)
+            allowed |= values_of.get(st["obj"], set())
             had_mut = True
             mutated.add(st["obj"])
             bump("mut:" + st["how"]["kind"])
@@ -189,14 +263,39 @@ def run(plan, ctx):
                 ro_on_interesting = True
             if op == "digraph" and f.get("argless"):
                 bump("probe:digraph_on_argless_program")
+            if op == "call" and src in model:
+                # R4: what a template call returns depends only on the template's content
+                # and the values - equal programs answer equal calls equally, whatever
+                # read-only or failed operations either of them has been through
+                kw = {}
+                for k2, v2 in sorted(st.get("kwargs", {}).items()):
+                    kw[k2] = ["ref", model.get(v2["ref"], ["?"])[0]] if isinstance(v2, dict) and "ref" in v2 else v2
+                key = model[src][0] + "|" + json.dumps(kw, sort_keys=True)
+                got = objs.get(st.get("out"), ["?"])[0] if ev.get("ok") else "exc:" + str(ev["res"][1])
+                if key in call_memo and call_memo[key][0] != got:
+                    viol.append({"inv": "R4", "step": i, "obj": src,
+                                 "detail": "%s at step %d gives %s, but the same call on an equal program (%s, "
+                                           "step %d) gave %s" % (_describe(st), i,
+                                                                "an instance with different content" if ev.get("ok") else got,
+                                                                call_memo[key][1], call_memo[key][2],
+                                                                "an instance" if not call_memo[key][0].startswith("exc:") else call_memo[key][0])})
+                    bump("probe:repeated_call_compared")
+                elif key in call_memo:
+                    bump("probe:repeated_call_compared")
+                else:
+                    call_memo[key] = (got, src, i)
             if op == "call":
                 if ev.get("ok"):
                     succeeded_call.add(src)
                     if any(x in mutated for x in instances_of.get(src, ())):
                         bump("probe:reinstantiated_after_instance_mutated")
                     instances_of.setdefault(src, []).append(st["out"])
-                    if any(isinstance(v, list) for v in st.get("kwargs", {}).values()):
+                    if any(isinstance(v, (list, dict)) for v in st.get("kwargs", {}).values()):
                         bump("probe:array_parameter_instance")
+                    refs = set(v["ref"] for v in st.get("kwargs", {}).values() if isinstance(v, dict) and "ref" in v)
+                    if refs:
+                        values_of[st["out"]] = refs
+                        bump("probe:instance_from_shared_caller_array")
                 elif src in succeeded_call:
                     bump("probe:failing_call_after_successful_call")
             if op == "match":
